@@ -4,7 +4,7 @@
 
 static inline std::vector<Str> resolve_bases(bool with_relative) {
     static const char *auth[] = { 0, "//h", "//", "//u@h:1", "//[::1]", "//1.2.3.4", "//[vF.b]" };
-    static const char *path[] = { "", "/", "/a", "/a/", "/a/b", "/a//", "//a", "a", "a/b", "a/", "/.", "/a/.." };
+    static const char *path[] = { "", "/", "/a", "/a/", "/a/b", "/a//", "//a", "a", "a/b", "a/", "/.", "/a/..", "/a/../b/c", "/./a/b", "/x/..//y/z", "a/./b" };   // the last four: dot segments among the directories of the base
     static const char *query[] = { 0, "?bq" };
     std::vector<Str> v; std::set<Str> seen;
     for (auto a : auth) for (auto p : path) for (auto q : query) {
